@@ -52,22 +52,22 @@ pub fn props() -> Vec<PropCfg> {
         },
         PropCfg {
             id: "C03",
-            profiles: &[("C03", 1)],
+            profiles: &[("C03", 4), ("C03-file", 1)],
             quick_runs: 200000,
             thorough_runs: 4000000,
             level: "exploration",
             rule: "one case = one seeded logger configuration (1-4 appenders with chains of scripted Accept/Neutral/Reject filters and real ThresholdFilters, per-call failing appenders, loggers over nested / look-alike names, duplicate attachments) and 1-3 threads logging records over 16 targets x 5 levels through the real Logger under one seeded schedule; after every log call the filters consulted, the deliveries and the errors handed to the error handler are compared with the per-attachment model; non-trivial = at least one appender error or one filter short-circuit (Accept/Reject) occurred; distinct = distinct event-log fingerprints",
-            assumptions: &["filter responses and appender failures are pure functions of (stub, record), hence independent of the interleaving", "no reconfiguration in this profile (Handle::set_config installs the default stderr handler, so the configured handler is only observable before the first swap)"],
+            assumptions: &["profile C03-file (1/5 of the cases) writes the configuration as a YAML file with custom `cap` / `script` kinds and some appenders of an unknown kind that carry valid filters, loads it with load_config_file (lossy) and expects exactly the configuration without those appenders", "filter responses and appender failures are pure functions of (stub, record), hence independent of the interleaving", "no reconfiguration in this profile (Handle::set_config installs the default stderr handler, so the configured handler is only observable before the first swap)"],
             real: &["log4rs::Logger (ArcSwap snapshot, ConfiguredLogger tree, Appender::append filter loop, error collection and hand-off)", "ThresholdFilter", "Config builder"],
             stub: &["capturing appenders (optionally failing per call)", "scripted filters", "capturing error handler", "thread scheduler (baton)"],
         },
         PropCfg {
             id: "C10",
-            profiles: &[("C10", 7), ("C10-hard", 1)],
-            quick_runs: 2000000,
+            profiles: &[("C10", 14), ("C10-hard", 2), ("C10-seq", 1)],
+            quick_runs: 1000000,
             thorough_runs: 40000000,
             level: "exploration",
-            rule: "one case = one seeded pattern tree (formatters m/l/t with fill/alignment/min/max specs, fills over multi-byte and syntax characters, nested groups up to depth 3, m <= M), a message built from 1-4 Display pieces over 1-4-byte scalars and combining marks, and a downstream writer that accepts a scripted 1..len bytes per call (may stop inside a character) and answers Interrupted on scripted calls; output compared with the character-exact truncate-then-pad specification; profile C10-hard makes the writer fail for good and only asserts no panic; non-trivial = at least one short write or interruption happened; distinct = distinct fingerprints of (pattern, message, accepted sizes, output)",
+            rule: "one case = one seeded pattern tree (formatters m/l/t with fill/alignment/min/max specs, fills over multi-byte and syntax characters, nested groups up to depth 3, m <= M), a message built from 1-4 Display pieces over 1-4-byte scalars and combining marks, and a downstream writer that accepts a scripted 1..len bytes per call (may stop inside a character) and answers Interrupted on scripted calls; output compared with the character-exact truncate-then-pad specification; profile C10-hard makes the writer fail for good and only asserts no panic; profile C10-seq (1/17 of the cases, each on a fresh thread) runs 1-2 encodes into a failing writer before the judged one on the same thread (no state may leak from a failed record into the next); non-trivial = at least one short write or interruption happened; distinct = distinct fingerprints of (pattern, message, accepted sizes, output)",
             assumptions: &["the fault is injected at the encode::Write trait seam; no threads or clock are involved in this property"],
             real: &["PatternEncoder (parser, Chunk::encode, MaxWidthWriter, LeftAlignWriter, RightAlignWriter)", "std write_all / write_fmt retry loops"],
             stub: &["downstream encode::Write (short-writing, interrupting, failing)"],
